@@ -189,11 +189,11 @@ Proof.
     pose proof (probe_all_maps (jr_pkg it) cands st cached) as Hm.
     destruct (probe_all W st (jr_pkg it) cands cached) as [st1 cached']. split; [exact Hp | exact Hm]. }
   destruct pr as [[st1 memo1] cached]. cbn [fst] in Hpr. destruct Hpr as [Hpr Hmap].
-  destruct (resolve_version W (jr_req it) versions (versions_by_name (js_pkgs st1) (jr_pkg it)) cached) as [[v yanked]|] eqn:Er.
+  destruct (resolve_version W (jr_req it) versions (versions_by_name (js_pkgs st1) (jr_pkg it)) cached (late_of W (jr_pkg it))) as [[v yanked]|] eqn:Er.
   - destruct Hpr as [A B].
     assert (Hnew : GEm (set_assoc (jr_req it) (jr_pkg it, v) (pt_map (js_pkgs st1))) (jr_req it)).
     { exists (jr_pkg it), v. split; [apply lookup_set_assoc_same|]. intros x Hx Hm.
-      apply (resolve_version_ge W _ _ _ _ _ _ Er x (seeded_by_name W _ _ _ A Hx) Hm). }
+      apply (resolve_version_ge W _ _ _ _ _ _ _ Er x (seeded_by_name W _ _ _ A Hx) Hm). }
     set (t2 := if yanked then (js_pkgs st1) <| pt_yanked := add2 (jr_pkg it, v) (pt_yanked (js_pkgs st1)) |> else js_pkgs st1).
     set (st2 := queue_ver W (st1 <| js_pkgs := add_nv t2 (jr_req it) (jr_pkg it, v) |>) (jr_pkg it, v)).
     assert (Hm2 : pt_map (js_pkgs st2) = set_assoc (jr_req it) (jr_pkg it, v) (pt_map (js_pkgs st1))).
@@ -358,6 +358,31 @@ Proof.
   - destruct (N.ltb b0 x); [inversion H; subst; right; split; [left; reflexivity | exact Em] | left; exact H].
   - inversion H; subst. right. split; [left; reflexivity | exact Em].
 Qed.
+
+(* the newest-dependency date: a version picked for a requirement that no version already in the graph
+   satisfies is never one of the versions that are too new for its package *)
+Lemma resolve_version_in_date : forall req versions existing cached late v y,
+  resolve_version W req versions existing cached late = Some (v, y) ->
+  best_match W req existing None = None -> mem v late = false.
+Proof.
+  intros req versions existing cached late v y H E0. unfold resolve_version in H. rewrite E0 in H.
+  assert (G : forall (f : N * bool -> bool) x,
+            In x (map fst (filter f (filter (fun p : N * bool => negb (mem (fst p) late)) versions))) -> mem x late = false).
+  { intros f x Hx. apply in_map_iff in Hx. destruct Hx as [[a b] [Ha Hb]]. cbn in Ha. subst a.
+    apply filter_In in Hb. destruct Hb as [Hb _]. apply filter_In in Hb. destruct Hb as [_ Hb].
+    cbn in Hb. destruct (mem x late); [discriminate | reflexivity]. }
+  set (in_date := filter (fun p : N * bool => negb (mem (fst p) late)) versions) in *.
+  set (s15 := match cached with [] => None | _ => _ end) in H.
+  destruct s15 as [v1|] eqn:E15.
+  { inversion H; subst. unfold s15 in E15. destruct cached as [|c0 cs]; [discriminate|].
+    apply best_match_in in E15. destruct E15 as [E15|[Hi _]]; [discriminate|].
+    apply filter_In in Hi. destruct Hi as [Hi _]. eapply G. exact Hi. }
+  match type of H with context [best_match W req ?l None] => destruct (best_match W req l None) as [v2|] eqn:E2 end.
+  { inversion H; subst. apply best_match_in in E2. destruct E2 as [E2|[Hi _]]; [discriminate|]. eapply G. exact Hi. }
+  match type of H with context [best_match W req ?l None] => destruct (best_match W req l None) as [v3|] eqn:E3 end; [|discriminate].
+  inversion H; subst. apply best_match_in in E3. destruct E3 as [E3|[Hi _]]; [discriminate|]. eapply G. exact Hi.
+Qed.
+
 
 (* the judgement the C06 registry stream evaluates on every case is a theorem of the model *)
 Theorem c06_judgement_true : forall o roots g,
